@@ -753,7 +753,14 @@ DoubleSupport::round(double     theValue)
         // a long, this is the fastest way to do it.
         if (theValue < LONG_MAX)
         {
-            return long(theValue + 0.5);
+            // Adding 0.5 before truncating would round the sum itself,
+            // which is wrong for 0.49999999999999994 and for the odd
+            // integers from 2^52 upward.
+            const long      theInteger = long(theValue);
+
+            return theValue - double(theInteger) >= 0.5 ?
+                        double(theInteger) + 1.0 :
+                        double(theInteger);
         }
         else
         {
